@@ -42,6 +42,10 @@ type history struct {
 	// parallel to RenEdits: the rename landed on a fork path that was deleted earlier on the branch.  When git does not report
 	// such a rename as R (delete + add), the added file sits at a path that has a fork version: that version is its base.
 	RenOnto []bool `json:"rename_onto_deleted,omitempty"`
+	// the repository is configured with `diff.renames = copies`: git then prints `C src dst` entries for a new file that is a copy
+	// of a file modified in the same commit (known finding C03-copy-entry-consumes-source-record)
+	CopyConfig bool        `json:"git_copy_detection,omitempty"`
+	Copies     [][2]string `json:"copies,omitempty"`
 	// HEAD paths whose lineage contains a rename that landed on a path deleted earlier on the branch
 	// (stratum; was known finding C03-rename-onto-deleted-path until fix d9e7954)
 	Tainted map[string]bool `json:"onto_deleted_lineage,omitempty"`
@@ -63,6 +67,7 @@ type hOpts struct {
 	MaxCommits int
 	OddPaths   bool // allow non-ASCII / quoted paths
 	OntoDeleted bool // allow renames onto paths deleted earlier on the branch
+	CopyDetect  bool // repository with diff.renames=copies + commits that copy a file and modify the source
 }
 
 func (h *hgen) freshPath(used map[string]bool) string {
@@ -98,7 +103,7 @@ func cloneState(s map[string]gFile) map[string]gFile {
 
 func (h *hgen) generate() *history {
 	r := h.g.r
-	hi := &history{Origin: map[string]string{}, Tainted: map[string]bool{}}
+	hi := &history{Origin: map[string]string{}, Tainted: map[string]bool{}, CopyConfig: h.opts.CopyDetect}
 	used := map[string]bool{} // every path that ever existed (renames/adds go to fresh paths)
 	state := map[string]gFile{}
 	nf := 1 + r.Intn(h.opts.MaxFiles)
@@ -157,6 +162,30 @@ func (h *hgen) generate() *history {
 			}
 			if len(paths) == 0 {
 				choice = 0
+			}
+			if h.opts.CopyDetect && k == 0 && !fileOpDone && len(paths) > 0 && r.Intn(2) == 0 {
+				// copy a file and modify the source in the same commit (what git's copy detection needs to print a C entry)
+				var cands []string
+				for _, p := range paths {
+					if len(state[p].Rules) >= 2 {
+						cands = append(cands, p)
+					}
+				}
+				if len(cands) > 0 {
+					p := pick(r, cands)
+					q := h.freshPath(used)
+					state[q] = state[p].clone()
+					hi.Origin[q] = ""
+					f := state[p]
+					i := r.Intn(len(f.Rules))
+					d := h.g.mutateRule(&f.Rules[i])
+					state[p] = f
+					hi.Copies = append(hi.Copies, [2]string{p, q})
+					ops = append(ops, hOp{Op: "copy-file-and-modify-source", Path: p, To: q, Detail: fmt.Sprintf("%d:%s", i, d)})
+					fileOpDone = true
+					strata["file-copied-while-source-modified(copy detection on)"] = true
+					continue
+				}
 			}
 			switch {
 			case choice == 0: // add file
@@ -254,6 +283,22 @@ func (h *hgen) generate() *history {
 					continue
 				}
 				i := r.Intn(len(f.Rules))
+				if r.Intn(6) == 0 && !f.Rules[i].Broken {
+					// the rule is replaced in place by a rule of the OTHER kind with the same name (record X -> alert X or back):
+					// a new rule (added) and a removed one, never one modified rule
+					nr := h.g.rule()
+					nr.Name = f.Rules[i].Name
+					if f.Rules[i].Kind == "record" {
+						nr.Kind = "alert"
+					} else {
+						nr.Kind, nr.For, nr.Annots = "record", "", nil
+					}
+					f.Rules[i] = nr
+					state[p] = f
+					ops = append(ops, hOp{Op: "replace-by-other-kind", Path: p, Detail: fmt.Sprintf("%d:%s", i, nr.Kind)})
+					strata["rule-replaced-by-other-kind-same-name"] = true
+					continue
+				}
 				d := h.g.mutateRule(&f.Rules[i])
 				ops = append(ops, hOp{Op: "modify-rule", Path: p, Detail: fmt.Sprintf("%d:%s", i, d)})
 				strata["rule-modified"] = true
@@ -484,6 +529,9 @@ func syncTree(dir string, files map[string]gFile) {
 func buildRepo(dir string, hi *history, config string) {
 	must(os.MkdirAll(dir, 0o755))
 	git(dir, "init", "-q", "-b", "main", ".")
+	if hi.CopyConfig {
+		git(dir, "config", "diff.renames", "copies")
+	}
 	writeFile(filepath.Join(dir, ".pint.hcl"), config)
 	syncTree(dir, hi.Fork)
 	git(dir, "add", "-A")
